@@ -323,3 +323,71 @@ Definition handle_catch (s : gsl) (running : bool) (depths : list N) (underflow 
   else Ok CNotCaught.
 
 Definition gsl_ok (s : gsl) : Prop := 0 <= tln s <= len (tarr s).
+
+(* ------------------------------------------------------------------ run-time value kernels *)
+(* moduloByteCode / divideByteCode after data.Normalize: both operands have the kind of v1.  Each arm
+   of the type switch asserts v2 to that kind (a failed assertion panics), tests it against the zero OF
+   THAT KIND, and only then divides (Go's integer / and % panic on a zero divisor). *)
+Inductive nkind := KByte | KInt8 | KInt16 | KUint16 | KInt32 | KUint32 | KInt | KUint | KInt64 | KUint64
+                 | KFloat32 | KFloat64 | KComplex64 | KComplex128 | KOtherKind.
+Definition nkind_eqb (a b : nkind) : bool :=
+  match a, b with
+  | KByte, KByte | KInt8, KInt8 | KInt16, KInt16 | KUint16, KUint16 | KInt32, KInt32 | KUint32, KUint32
+  | KInt, KInt | KUint, KUint | KInt64, KInt64 | KUint64, KUint64 | KFloat32, KFloat32 | KFloat64, KFloat64
+  | KComplex64, KComplex64 | KComplex128, KComplex128 | KOtherKind, KOtherKind => true
+  | _, _ => false
+  end.
+Definition is_int_kind (k : nkind) : bool :=
+  match k with KFloat32 | KFloat64 | KComplex64 | KComplex128 | KOtherKind => false | _ => true end.
+
+Inductive arith_out := ADivZero | ATypeErr | AValue.
+
+(* v.(K) *)
+Definition assert_kind (want have : nkind) : res unit := if nkind_eqb want have then Ok tt else Panic.
+(* a / b or a % b on integers *)
+Definition int_div (divisor : Z) : res unit := if divisor =? 0 then Panic else Ok tt.
+
+(* percase = true: the zero test is made on the asserted value in every arm (the code as it is);
+   percase = false: one hoisted "v2 == 0" on the interface value, which is true only for int(0) *)
+Definition modulo_op (percase : bool) (k1 k2 : nkind) (v2 : Z) : res arith_out :=
+  if negb percase && nkind_eqb k2 KInt && (v2 =? 0) then Ok ADivZero else
+  if is_int_kind k1 then
+    do _ <- assert_kind k1 k2;
+    if percase && (v2 =? 0) then Ok ADivZero else
+    do _ <- int_div v2; Ok AValue
+  else Ok ATypeErr.
+
+(* divideByteCode: floats divide without a Go panic (the zero test there depends on c.divZero);
+   complex kinds test for zero *)
+Definition divide_op (k1 k2 : nkind) (v2 : Z) (divzero : bool) : res arith_out :=
+  match k1 with
+  | KOtherKind => Ok ATypeErr
+  | KFloat32 | KFloat64 => do _ <- assert_kind k1 k2; if divzero && (v2 =? 0) then Ok ADivZero else Ok AValue
+  | KComplex64 | KComplex128 => do _ <- assert_kind k1 k2; if v2 =? 0 then Ok ADivZero else Ok AValue
+  | _ => do _ <- assert_kind k1 k2; if v2 =? 0 then Ok ADivZero else do _ <- int_div v2; Ok AValue
+  end.
+
+(* data.Array: a byte array keeps its elements in [abytes], any other in [adata] *)
+Record earray := { aisbyte : bool; abytes : list Z; adata : list Z }.
+
+(* Array.GetSlice *)
+Definition get_slice (a : earray) (first last : Z) : res (option (list Z)) :=
+  let size := if aisbyte a then len (abytes a) else len (adata a) in
+  if (first <? 0) || (last <? first) || (size <? first) || (size <? last) then Ok None else
+  if aisbyte a then do s <- slice (abytes a) first last; do _ <- mk (len s); Ok (Some s)
+  else do s <- slice (adata a) first last; Ok (Some s).
+
+(* Array.GetSliceAsArray.  merged = true: the bounds test hoisted above both branches without the
+   "last < first" term (relying on GetSlice for it) — the byte branch never reaches GetSlice *)
+Definition get_slice_as_array (merged : bool) (a : earray) (first last : Z) : res (option (list Z)) :=
+  if merged then
+    let size := if aisbyte a then len (abytes a) else len (adata a) in
+    if (first <? 0) || (size <? first) || (size <? last) then Ok None else
+    if aisbyte a then do s <- slice (abytes a) first last; Ok (Some s) else get_slice a first last
+  else
+    if aisbyte a then
+      if (first <? 0) || (last <? first) || (len (abytes a) <? first) || (len (abytes a) <? last) then Ok None
+      else do s <- slice (abytes a) first last; Ok (Some s)
+    else
+      if (first <? 0) || (last <? first) || (len (adata a) <? first) || (len (adata a) <? last) then Ok None
+      else get_slice a first last.
